@@ -18,8 +18,10 @@ for pid in sorted(props):
     if not os.path.exists(f):
         continue
     e = json.load(open(f)); c = e["check"]; m = e["manifest"]
-    src = open(os.path.join(V, "coq", "theories", "Properties", pid + ".v"), encoding="utf-8").read()
-    thms = re.findall(r"^\s*Theorem\s+([A-Za-z0-9_']+)", src, re.M)
+    thms = []
+    for pf in [pid] + c.get("extra_property_files", []):
+        src = open(os.path.join(V, "coq", "theories", "Properties", pf + ".v"), encoding="utf-8").read()
+        thms += re.findall(r"^\s*Theorem\s+([A-Za-z0-9_']+)", src, re.M)
     w("**%s — %s** (level `%s`, engine `%s`)  " % (pid, props[pid]["title"], c.get("level", "proof"), m["engine"]))
     w("*Technique:* %s  " % m["technique"])
     w("*Theorems (%d, `coq/theories/Properties/%s.v`):* %s  " % (len(thms), pid, ", ".join("`%s`" % t for t in thms)))
